@@ -3,6 +3,7 @@ CONSTANTS
   MaxOps = 3
   Deviations <- DevAbsPatch
   JunkBytes <- MCJunk
+  RegistryOps = FALSE
 CHECK_DEADLOCK FALSE
 VIEW ViewNoHist
 INVARIANT FramesRight
